@@ -7,6 +7,7 @@ computes its result as a deterministic function of the entity id, the arguments 
 """
 import json
 import os
+import re
 
 VERIF = os.path.dirname(os.path.dirname(os.path.dirname(os.path.abspath(__file__))))
 RT_HEADER = os.path.join(VERIF, "harness", "libgen_rt.h")
@@ -260,7 +261,7 @@ class Gen:
             elif k in ("string", "cstr"):
                 parts.append(f"vf::hs({n})")
             elif k == "obj":
-                cn = t["cls"].split("::")[-1]
+                cn = self.classes[t["cls"]]["name"]
                 if t["mode"] in ("ptr", "cptr"):
                     parts.append(f"({n} ? {n}->st_{cn} : 3ull)")
                 else:
@@ -277,7 +278,7 @@ class Gen:
             n = p["name"]
             tag = f"a{i}"
             if t["k"] == "obj":
-                cn = t["cls"].split("::")[-1]
+                cn = self.classes[t["cls"]]["name"]
                 if t["mode"] in ("ptr", "cptr"):
                     out.append(f'  vf_e.obj("{tag}", {n});')
                 elif t["mode"] in ("ref", "cref"):
@@ -670,10 +671,10 @@ class Gen:
         self.cx.append("  return p[h % 3];")
         self.cx.append("}")
         # native helpers for drivers: state peek, member peek, static_cast to each direct base
-        cid = q.replace("::", "_")
+        cid = re.sub(r"\W+", "_", q)
         self.cx.append(f'extern "C" unsigned long long vf_state_{cid}(const void *p) {{ return ((const {q} *)p)->st_{name}; }}')
         for b, _ in bases:
-            bid = b.replace("::", "_")
+            bid = re.sub(r"\W+", "_", b)
             self.cx.append(f'extern "C" void *vf_cast_{cid}__{bid}(void *p) {{ return static_cast<{b} *>(({q} *)p); }}')
         for m in members_decl:
             if m["array"]:
@@ -804,6 +805,53 @@ class Gen:
         cls["seqprops"].append(dict(name=sname, qname=cls["qname"] + "::" + sname, doc=d,
                                     **{roles[i]: fns[i]["qname"] for i in range(len(fns))}))
 
+    def gen_template(self):
+        """a class template with two typedef'd instantiations (v2); bodies are shared, entity ids come from a trait"""
+        r = self.r
+        n = r.randrange(10000)
+        tn = f"Box{n}"
+        insts = r.sample([("int", T("int", c="int")), ("double", T("float", c="double")), ("short int", T("int", c="short")),
+                          ("unsigned int", T("int", c="unsigned int"))], 2)
+        h, cx = self.h, self.cx
+        h += [f"template<class T> struct {tn}_tr;", f"template<class T> class {tn} {{", "PUBLISHED:", f"  {tn}();",
+              f"  {tn}(const {tn} &vf_o);", f"  ~{tn}();", "  T get_v() const;", "  void set_v(T v);",
+              "  T twice(T v, int k = 2) const;", "public:", f"  unsigned long long st_{tn};", "  T _v;",
+              f"  explicit {tn}(vf::PoolTag);", f"  static {tn} *vf_pool(unsigned long long h);", "};"]
+        for i, (cname, tt) in enumerate(insts):
+            base = self.eid + 1
+            self.eid += 6
+            q = f"{tn}< {cname} >"
+            td = f"{tn}T{i}"
+            h.append(f"typedef {tn}<{cname}> {td};")
+            cx.append(f'template<> struct {tn}_tr<{cname}> {{ static const int base = {base}; static const char *name() {{ return "{q}"; }} }};')
+            P = lambda nm, ty, dflt=None, dv=None: dict(name=nm, type=ty, default=dflt, default_value=dv)
+            mk = lambda k, nm, kind, ps, ret, const=False: dict(eid=base + k, name=nm, qname=q + "::" + nm, cls=q, kind=kind,
+                                                                const=const, virtual=False, static=False, params=ps, ret=ret,
+                                                                doc=None, lib=self.name, ret_owner="value")
+            cls = dict(name=tn, qname=q, lib=self.name, ns=None, bases=[], ctors=[mk(0, tn, "ctor", [], T("void"))],
+                       copy_ctor=dict(eid=base + 1, name=tn, qname=q + "::" + tn, kind="copy_ctor", cls=q),
+                       methods=[mk(2, "get_v", "method", [], tt, True), mk(3, "set_v", "method", [P("v", tt)], T("void")),
+                                mk(4, "twice", "method", [P("v", tt), P("k", T("int", c="int"), "2", 2)], tt, True)],
+                       members=[], enums=[], properties=[], seqs=[], seqprops=[], doc=None, complete=True, copyable=True,
+                       abstract=False, nested=[], outer=None, depth=0, virtual_dtor=False, template=tn, typedef=td)
+            self.classes[q] = cls
+            self.model["classes"].append(cls)
+            self.model["typedefs"].append(dict(name=td, qname=td, target=q))
+            cid = re.sub(r"\W+", "_", q)
+            cx.append(f'extern "C" unsigned long long vf_state_{cid}(const void *p) {{ return ((const {tn}<{cname}> *)p)->st_{tn}; }}')
+        cx += [
+            f"template<class T> {tn}<T>::{tn}() {{ vf::reg(this, sizeof(*this), {tn}_tr<T>::name()); _v = T(); vf::Ev vf_e({tn}_tr<T>::base + 0, this); st_{tn} = vf::mix({tn}_tr<T>::base, 11); vf_e.raw(\"r\", \"v\" + std::to_string(st_{tn})); }}",
+            f"template<class T> {tn}<T>::{tn}(const {tn} &vf_o) {{ vf::reg(this, sizeof(*this), {tn}_tr<T>::name()); _v = vf_o._v; st_{tn} = vf_o.st_{tn}; vf::Ev vf_e({tn}_tr<T>::base + 1, this); vf_e.obj(\"a0\", &vf_o); vf_e.raw(\"r\", \"v\" + std::to_string(st_{tn})); }}",
+            f"template<class T> {tn}<T>::~{tn}() {{ vf::unreg(this, sizeof(*this), {tn}_tr<T>::name()); }}",
+            f"template<class T> T {tn}<T>::get_v() const {{ vf::Ev vf_e({tn}_tr<T>::base + 2, this); unsigned long long vf_h = vf::mix({tn}_tr<T>::base + 2, st_{tn}); T vf_r = vf::make_val<T>(vf_h); vf_e.put(\"r\", vf_r); return vf_r; }}",
+            f"template<class T> void {tn}<T>::set_v(T v) {{ vf::Ev vf_e({tn}_tr<T>::base + 3, this); vf_e.put(\"a0\", v); st_{tn} = vf::mix(st_{tn}, {tn}_tr<T>::base + 3); _v = v; vf_e.raw(\"r\", \"n\"); }}",
+            f"template<class T> T {tn}<T>::twice(T v, int k) const {{ vf::Ev vf_e({tn}_tr<T>::base + 4, this); vf_e.put(\"a0\", v); vf_e.put(\"a1\", k); unsigned long long vf_h = vf::mix(vf::mix(vf::mix({tn}_tr<T>::base + 4, vf::hv(v)), vf::hv(k)), st_{tn}); T vf_r = vf::make_val<T>(vf_h); vf_e.put(\"r\", vf_r); return vf_r; }}",
+            f"template<class T> {tn}<T>::{tn}(vf::PoolTag) {{ vf::reg(this, sizeof(*this), {tn}_tr<T>::name()); _v = T(); st_{tn} = 1000 + {tn}_tr<T>::base; }}",
+            f"template<class T> {tn}<T> *{tn}<T>::vf_pool(unsigned long long h) {{ static {tn}<T> *p[3] = {{new {tn}<T>(vf::PoolTag()), new {tn}<T>(vf::PoolTag()), new {tn}<T>(vf::PoolTag())}}; return p[h % 3]; }}",
+        ]
+        for cname, _ in insts:
+            cx.append(f"template class {tn}<{cname}>;")
+
     def cxraw(self, line):
         """a raw definition for a declaration emitted inside the library namespace"""
         ns = getattr(self, "lib_ns", None)
@@ -879,6 +927,8 @@ class Gen:
         for i in range(r.choice([1, 2])):
             self.gen_enum(ns=ns)
         self.h.append("END_PUBLISH")
+        if getattr(self, "ext", False) and getattr(self, "templates", True) and r.random() < 0.6:
+            self.gen_template()
         # classes
         n_classes = n_classes or max(1, int(r.choice([2, 3, 4]) * self.size))
         own = []
